@@ -162,8 +162,8 @@ func propC08(a *Analysis, r *Registry) {
 			}
 			one, n1 := fc.ReturnCond(isConst("1"))
 			zero, n0 := fc.ReturnCond(isConst("0"))
-			if n1 != 1 || n0 != 1 {
-				r.Fail(rB, "mathx.Choose/special-cases", b.pos(fn), "expected one `return 1` and one `return 0`")
+			if n1 < 1 || n0 < 1 {
+				r.Fail(rB, "mathx.Choose/special-cases", b.pos(fn), "expected a `return 1` and a `return 0`")
 			} else {
 				b.Eq(rB, "mathx.Choose/returns-1", b.pos(fn), one, env, "k==0 || k==n")
 				b.Eq(rB, "mathx.Choose/returns-0", b.pos(fn), zero, env, "!(k==0 || k==n) && (k<0 || n<k)")
@@ -186,19 +186,28 @@ func propC08(a *Analysis, r *Registry) {
 			lg, _ := fc.ReturnCond(func(rt *ssa.Return) bool { return rt == large })
 			b.Eq(rB, "mathx.Choose/large-when", a.W.InstrPos(large), lg, env, "!(k==0 || k==n) && !(k<0 || n<k) && !(n<=20)")
 			sv := fc.Val(small.Results[0])
-			vars := b.LoopSystem(rB, "mathx.Choose/small-product", a.W.InstrPos(small), fc, sv, env, []recSpec{
-				{"numer", "1", "numer*n1"}, {"n1", "n-(k-1)", "n1+1"},
-			})
-			if vars != nil {
-				env.Set("numer", vars["numer"], nil)
-				env.Set("n1", vars["n1"], nil)
-				b.Eq(rB, "mathx.Choose/small-result", a.W.InstrPos(small), sv, env, "idiv(numer, mathx.smallFact[k])")
-				// loop continues while n1 <= n
-				ph := X.phiOf[vars["n1"].SingleAtom().ID]
-				if ifi, ok := ph.Block().Instrs[len(ph.Block().Instrs)-1].(*ssa.If); ok {
-					b.Eq(rB, "mathx.Choose/small-bound", a.W.InstrPos(ifi), fc.Val(ifi.Cond), env, "n1<=n")
+			// the product of the k factors n-k+1 … n, taken in ascending or in descending order
+			product := func(init, step, factor, bound string) func() {
+				return func() {
+					e := X.EnvFor(fn, "n", "k")
+					vars := b.LoopSystem(rB, "mathx.Choose/small-product", a.W.InstrPos(small), fc, sv, e, []recSpec{
+						{"numer", "1", "numer*" + factor}, {"n1", init, step},
+					})
+					if vars != nil {
+						e.Set("numer", vars["numer"], nil)
+						e.Set("n1", vars["n1"], nil)
+						b.Eq(rB, "mathx.Choose/small-result", a.W.InstrPos(small), sv, e, "idiv(numer, mathx.smallFact[k])")
+						nat := vars["n1"].SingleAtom()
+						ph, pfc := X.phiOf[nat.ID], X.phiFC[nat.ID]
+						if ifi, ok := ph.Block().Instrs[len(ph.Block().Instrs)-1].(*ssa.If); ok {
+							b.Eq(rB, "mathx.Choose/small-bound", a.W.InstrPos(ifi), pfc.Val(ifi.Cond), e, bound)
+						} else {
+							r.Fail(rB, "mathx.Choose/small-bound", b.pos(fn), "the product loop has no bound test at its header")
+						}
+					}
 				}
 			}
+			b.AnyOf(product("n-(k-1)", "n1+1", "n1", "n1<=n"), product("n", "n1-1", "n1", "n-k<n1"), product("0", "n1+1", "(n-n1)", "n1<k"))
 		})
 	}
 	if fn := b.Fn(rB, "mathx.init#1"); fn != nil {
@@ -223,13 +232,24 @@ func propC08(a *Analysis, r *Registry) {
 				n++
 				// smallFact[n] = fact*n with fact carried
 				v := fc.Val(st.Val)
-				vars := b.LoopSystem(rB, "mathx.init/smallFact-recurrence", a.W.InstrPos(st), fc, v, env, []recSpec{{"fact", "1", "fact*n"}, {"n", "1", "n+1"}})
-				if vars != nil {
-					env.Set("fact", vars["fact"], nil)
-					env.Set("n", vars["n"], nil)
-					b.Eq(rB, "mathx.init/smallFact[n]", a.W.InstrPos(st), v, env, "fact*n")
-					b.EqRF(rB, "mathx.init/smallFact-index", a.W.InstrPos(st), idx, vars["n"], "the product fact*n is stored at index n")
-				}
+				b.AnyOf(func() {
+					vars := b.LoopSystem(rB, "mathx.init/smallFact-recurrence", a.W.InstrPos(st), fc, v, env, []recSpec{{"fact", "1", "fact*n"}, {"n", "1", "n+1"}})
+					if vars != nil {
+						env.Set("fact", vars["fact"], nil)
+						env.Set("n", vars["n"], nil)
+						b.Eq(rB, "mathx.init/smallFact[n]", a.W.InstrPos(st), v, env, "fact*n")
+						b.EqRF(rB, "mathx.init/smallFact-index", a.W.InstrPos(st), idx, vars["n"], "the product fact*n is stored at index n")
+					}
+				}, func() {
+					// the table built from its own previous entry: smallFact[n] = n*smallFact[n-1], n = 1,2,…
+					e2 := X.EnvFor(fn)
+					vars := b.LoopSystem(rB, "mathx.init/smallFact-recurrence", a.W.InstrPos(st), fc, idx, e2, []recSpec{{"n", "1", "n+1"}})
+					if vars != nil {
+						e2.Set("n", vars["n"], nil)
+						b.EqRF(rB, "mathx.init/smallFact-index", a.W.InstrPos(st), idx, vars["n"], "entry n is stored at index n")
+						b.Eq(rB, "mathx.init/smallFact[n]", a.W.InstrPos(st), v, e2, "n*mathx.smallFact[n-1]")
+					}
+				})
 			})
 			if n != 1 {
 				r.Fail(rB, "mathx.init/smallFact", b.pos(fn), "expected one table-filling store")
